@@ -69,7 +69,7 @@ example : (List.range 3).map (fdEval (α := Int) ⟨.b1, .no, false⟩ 3 (fun j 
 
 /-- `SingleAxisFiniteSum` (`x + roll(x, −1)`, the low-pass half of the Haar transform used by the TV
     norm) = ones on the diagonal and the circular superdiagonal (the class docstring without its
-    spurious first row, see `fixes/finitesum-docstring.patch`) -/
+    spurious first row it showed before 0e32add) -/
 theorem C04_finite_sum (n : Nat) (hn : 0 < n) (x : V K) (i : Nat) (hi : i < n) :
     fsumEval n x i = mulVec (fsumMatrix n) n x i :=
   fsumEval_eq_mulVec n hn x i hi
